@@ -37,7 +37,19 @@ pub struct RefF {
     pub class: u8,
 }
 
+/// A caller-defined MADT payload: `MADT::add_structure` accepts any `Aml + IntoBytes` type, so a
+/// caller may add a block of pre-encoded structures. This one is two 8-byte local-APIC structures.
+#[repr(C, packed)]
+#[derive(Clone, Copy, zerocopy::IntoBytes, zerocopy::Immutable)]
+pub struct RawPair(pub [u8; 16]);
+impl Aml for RawPair {
+    fn to_aml_bytes(&self, sink: &mut dyn AmlSink) {
+        sink.vec(&self.0);
+    }
+}
+
 pub enum Built {
+    RawPair(RawPair),
     U64(u64),
     Ecam(u64, u16, u8, u8),
     Lapic(madt::ProcessorLocalApic),
@@ -87,6 +99,7 @@ impl Built {
     pub fn aml(&self) -> Option<&dyn Aml> {
         Some(match self {
             Built::U64(_) | Built::Ecam(..) => return None,
+            Built::RawPair(x) => x,
             Built::Lapic(x) => x,
             Built::IoApic(x) => x,
             Built::Gicc(x) => x,
@@ -133,6 +146,7 @@ impl Built {
     /// raw in-memory form, for the structures that can be added to a table through it
     pub fn raw(&self) -> Option<&[u8]> {
         Some(match self {
+            Built::RawPair(x) => x.as_bytes(),
             Built::Lapic(x) => x.as_bytes(),
             Built::IoApic(x) => x.as_bytes(),
             Built::Gicc(x) => x.as_bytes(),
@@ -317,6 +331,18 @@ fn build_inner(op: &Op, h: &Handles) -> Option<BuiltEntry> {
         K::McAddEcam => (Built::Ecam(op.arg(0), op.arg(1) as u16, op.arg(2) as u8, op.arg(3) as u8), 0),
         // ---------------- MADT ----------------
         K::MaLapic => (Built::Lapic(madt::ProcessorLocalApic::new(op.arg(0) as u8, op.arg(1) as u8, madt_status(op.arg(2)))), 0),
+        K::MaRawPair => {
+            // two local-APIC structures (type 0, length 8, uid, apic id, flags) in one caller-defined block
+            let mut b = [0u8; 16];
+            for (i, base) in [0usize, 8].iter().enumerate() {
+                b[*base] = 0;
+                b[*base + 1] = 8;
+                b[*base + 2] = op.arg(2 * i) as u8;
+                b[*base + 3] = op.arg(2 * i + 1) as u8;
+                b[*base + 4..*base + 8].copy_from_slice(&((op.arg(4 + i) % 3) as u32).to_le_bytes());
+            }
+            (Built::RawPair(RawPair(b)), 0)
+        }
         K::MaIoApic => (Built::IoApic(madt::IoApic::new(op.arg(0) as u8, op.arg(1) as u32, op.arg(2) as u32)), 1),
         K::MaGicc => {
             let mut g = madt::Gicc::new(madt_status(op.arg(0)));
